@@ -598,3 +598,50 @@ pub proof fn lemma_last(p: &Partition, count: int, requested: int, start: int)
         assert(slice_of(l, start, start + requested - 1) =~= Seq::<RetainedMessage>::empty()) by { reveal_with_fuel(seq_keep, 2); }
     }
 }
+
+// ---- timestamp poll ----
+pub proof fn lemma_keep_none(s: Seq<RetainedMessage>, f: spec_fn(RetainedMessage) -> bool)
+    requires forall|i: int| 0 <= i < s.len() ==> !f(#[trigger] s[i]),
+    ensures seq_keep(s, f) == Seq::<RetainedMessage>::empty(),
+{
+    lemma_keep_window(s, f, 0, 0);
+    assert(s.subrange(0, 0) =~= Seq::<RetainedMessage>::empty());
+}
+// a segment whose end_timestamp is below the query holds no message of the answer
+pub proof fn lemma_ts_skip(segs: Seq<Segment>, i: int, t: int)
+    requires
+        0 <= i < segs.len(), segs[i].end_timestamp < t,
+        forall|j: int| 0 <= j < seg_all(&segs[i]).len() ==> (#[trigger] seg_all(&segs[i])[j]).timestamp <= segs[i].end_timestamp,
+    ensures seq_keep(log_upto(segs, i + 1), ts_ge(t)) == seq_keep(log_upto(segs, i), ts_ge(t)),
+{
+    let a = seg_all(&segs[i]);
+    lemma_keep_none(a, ts_ge(t));
+    lemma_keep_add(log_upto(segs, i), a, ts_ge(t));
+    assert(seq_keep(log_upto(segs, i), ts_ge(t)) + Seq::<RetainedMessage>::empty() =~= seq_keep(log_upto(segs, i), ts_ge(t)));
+}
+// k = the matching messages of the first i segments (fewer than count), sm = what segment i returns for the remaining count
+pub proof fn lemma_ts_step(segs: Seq<Segment>, i: int, t: int, count: int, k: Seq<RetainedMessage>, sm: Seq<RetainedMessage>)
+    requires
+        0 <= i < segs.len(), k == seq_keep(log_upto(segs, i), ts_ge(t)), k.len() < count,
+        sm == ts_slice_of(seg_all(&segs[i]), t, count - k.len()),
+    ensures
+        sm.len() <= count - k.len(),
+        sm.len() < count - k.len() ==> k + sm == seq_keep(log_upto(segs, i + 1), ts_ge(t)),
+        sm.len() == count - k.len() ==> k + sm == ts_slice_of(log_upto(segs, segs.len() as int), t, count),
+{
+    let n = segs.len() as int;
+    let a = seg_all(&segs[i]); let ka = seq_keep(a, ts_ge(t));
+    lemma_keep_add(log_upto(segs, i), a, ts_ge(t));
+    let k1 = seq_keep(log_upto(segs, i + 1), ts_ge(t));
+    assert(k1 == k + ka);
+    if sm.len() < count - k.len() {
+        assert(sm =~= ka);
+    } else {
+        lemma_log_split(segs, i + 1, n, n - (i + 1));
+        let rest = log_upto(segs.subrange(i + 1, n), n - (i + 1));
+        lemma_keep_add(log_upto(segs, i + 1), rest, ts_ge(t));
+        let kn = seq_keep(log_upto(segs, n), ts_ge(t));
+        assert(kn == k1 + seq_keep(rest, ts_ge(t)));
+        assert(k + sm =~= take(kn, count));
+    }
+}
